@@ -2157,7 +2157,7 @@ class Lengths(Expr):
         return (None, None)
 
     def _simplify_down(self):
-        if isinstance(self.frame, Elemwise):
+        if isinstance(self.frame, Elemwise) and self.frame._is_length_preserving:
             child = max(self.frame.dependencies(), key=lambda expr: expr.npartitions)
             return Lengths(child)
 
@@ -2520,6 +2520,13 @@ class BlockwiseTailIndex(BlockwiseTail):
 
 class Binop(Elemwise):
     _parameters = ["left", "right"]
+
+    @functools.cached_property
+    def _is_length_preserving(self):
+        # pandas aligns two frame-like operands on the union of their indexes,
+        # so the result can have more rows than either of them
+        operands = [self.left, self.right]
+        return sum(isinstance(op, Expr) and op.ndim > 0 for op in operands) < 2
 
     def __str__(self):
         return f"{self.left} {self._operator_repr} {self.right}"
